@@ -16,8 +16,9 @@ structure HKernel (α : Type) (n : Nat) where
   S : Type
   /-- data after the post-acceptance evaluations that precede the stiffness test (DOP853: FSAL call) -/
   SA : Type
-  /-- the stages: calls made (time, argument) and the literal added to `evals.ode` -/
-  trial : Rhs α n → (x h : α) → (y k1 : Vec α n) → S × Array (α × Vec α n) × Nat
+  /-- the stages: calls made (time, argument) and the literal added to `evals.ode`; `last`, `xend`: the landing step
+      evaluates its last stage at `xend` itself -/
+  trial : Rhs α n → (x h : α) → (last : Bool) → (xend : α) → (y k1 : Vec α n) → S × Array (α × Vec α n) × Nat
   err : S → (y : Vec α n) → (h : α) → α
   acceptA : Rhs α n → S → (x h : α) → (y k1 : Vec α n) → SA × Array (α × Vec α n) × Nat
   /-- new `hlamb` of the stiffness test -/
@@ -95,8 +96,9 @@ structure HTrial (α : Type) (n : Nat) (S : Type) where
   hnew : α
 
 /-- `steps.total += 1`, the stages, the error norm, "Computation of hnew" -/
-def hTrial {σ : Type} (P : HParams α n) (Kn : HKernel α n) (f : Rhs α n) (s : HState σ α n) (h : α) : HTrial α n Kn.S :=
-  let r := Kn.trial (fun j => f (s.m.ncalls + j)) s.x h s.y s.k1
+def hTrial {σ : Type} (P : HParams α n) (Kn : HKernel α n) (f : Rhs α n) (s : HState σ α n) (h : α) (last : Bool) :
+    HTrial α n Kn.S :=
+  let r := Kn.trial (fun j => f (s.m.ncalls + j)) s.x h last P.xend s.y s.k1
   let err := Kn.err r.1 s.y h
   let c := P.hnewCalc err s.facold h
   { S := r.1, m := s.m.incTotal.bump r.2.1 r.2.2, err := err, fac11 := c.1, hnew := c.2 }
@@ -116,19 +118,23 @@ def hNextStep (P : HParams α n) (hnew h : α) (reject : Bool) : α :=
   let hnew := if Num.abs hnew > Num.abs P.hmax then P.posneg * Num.abs P.hmax else hnew
   if reject then P.posneg * Num.fmin (Num.abs hnew) (Num.abs h) else hnew
 
+/-- the time a step ends at: `xph = if last { xend } else { x + h }` -/
+def landX (last : Bool) (xend x h : α) : α := if last then xend else x + h
+
 /-- second half of "Step accepted": dense output, state update, callback, exit test, limits on the next step -/
 def hFinish {σ : Type} (P : HParams α n) (Kn : HKernel α n) (f : Rhs α n) (ob : Obs σ α n) (s : HState σ α n)
     (h : α) (last : Bool) (hnew facold hlamb : α) (nonstiff iasti : Nat) (sa : Kn.SA) (m : Meter α n) :
     Sum (HState σ α n) (Result σ α n) :=
   let b := Kn.acceptB (fun j => f (m.ncalls + j)) P.dense sa s.x h s.y s.k1
   let ip : Option (α → Vec α n) := if P.dense then some (Kn.interp b.2.2.1 s.x h) else none
-  let m := (m.bump b.2.2.2.1 b.2.2.2.2).cb s.x (s.x + h) b.1 (sampleInterp ip s.x (s.x + h) P.quarter P.half P.threeq)
-  match afterCb f ob s.obs m s.x (s.x + h) b.1 ip b.2.1 with
-  | .stop obs y => .inr { status := .userInterrupt, h := h, x := s.x + h, y := y, m := m, obs := obs }
+  let xn := landX last P.xend s.x h
+  let m := (m.bump b.2.2.2.1 b.2.2.2.2).cb s.x xn b.1 (sampleInterp ip s.x xn P.quarter P.half P.threeq)
+  match afterCb f ob s.obs m s.x xn b.1 ip b.2.1 with
+  | .stop obs y => .inr { status := .userInterrupt, h := h, x := xn, y := y, m := m, obs := obs }
   | .go obs y k1 m =>
-    if last then .inr { status := .success, h := hnew, x := s.x + h, y := y, m := m, obs := obs }
+    if last then .inr { status := .success, h := hnew, x := xn, y := y, m := m, obs := obs }
     else
-      .inl { x := s.x + h, h := hNextStep P hnew h s.reject, y := y, k1 := k1, facold := facold, last := last, reject := false,
+      .inl { x := xn, h := hNextStep P hnew h s.reject, y := y, k1 := k1, facold := facold, last := last, reject := false,
              nonstiff := nonstiff, iasti := iasti, hlamb := hlamb, m := m, obs := obs }
 
 /-- stiffness test of an accepted step: new `hlamb` and `(nonstiff, iasti, stop)` -/
@@ -155,7 +161,7 @@ def hIter {σ : Type} (P : HParams α n) (Kn : HKernel α n) (f : Rhs α n) (ob 
   | some st => .inr (s.result st)
   | none =>
     let a := hAdjust P s
-    let T := hTrial P Kn f s a.1
+    let T := hTrial P Kn f s a.1 a.2
     if T.err ≤ P.one then hAccepted P Kn f ob s a.1 a.2 T
     else .inl (hRejected P s a.1 T.m T.fac11)
 
